@@ -28,7 +28,7 @@ REL = Fraction(1, 10**9)
 # independent references (no FFT)
 # ------------------------------------------------------------------------------------------------
 
-PROP_MODULES = ['C15', 'C15Gen']
+PROP_MODULES = ['C15', 'C15Gen', 'C15GenSlow']
 
 def ind_dft(x):
     N = len(x)
@@ -516,3 +516,14 @@ def run(ctx):
 
 # evidence: how the model is tied to the source on every run (as built, supersedes the value above)
 TIE = 'translator (eqsig/stockwell.py -> Gen/StockwellFns; Props/C15Gen) + correspondence (Float twin of the whole transform, both implementations)'
+
+
+# ---- tw_rest2: generated zero-and-peak / cluster / slow-Stockwell definitions vs the implementation ---------------------------
+from _rest2_corr import corr_rest2  # noqa: E402
+_run_main_rest2 = run
+
+
+def run(ctx):
+    _run_main_rest2(ctx)
+    corr_rest2(ctx, parts=('stockwell',))
+    ctx.flush()
